@@ -47,6 +47,9 @@ StructsQ ==
     \cup {Struct(r, <<a, b>>) : r \in Reprs, a \in Key6, b \in Key6}
     \cup {Struct(r, <<a, b, c>>) : r \in Reprs, a \in P3, b \in P3, c \in P3}
     \cup {T("struct", r, 1, <<a, b>>, <<Plain, Plain>>) : r \in Reprs, a \in P3, b \in P3}
+    \* generic structs  S<T> { f0: T, f1: .. }  instantiated at T = type of the first field
+    \cup {T("struct", r, 2, <<a, b>>, <<Plain, Plain>>) : r \in Reprs, a \in {P("u8"), P("u32"), Str}, b \in {P("u8"), P("u32")}}
+    \cup {T("struct", "Rust", 2, <<a>>, <<Plain>>) : a \in {Vec("Vec", P("u16")), Opt(Str)}}
     \cup {Struct("Rust", <<a, b, c, d>>) : a \in {P("u32"), P("u64")}, b \in P3, c \in P3, d \in {P("u8"), P("u16")}}
     \cup {Struct(r, <<a, w>>) : r \in Reprs, a \in {P("u8"), P("u32")},
              w \in {Vec("ArrayVec", P("u8")), Vec("ArrayVec", P("u32")), Vec("SmallVec", P("u8")), Arr(P("u8"), 3),
@@ -71,7 +74,9 @@ Shapes == { <<U>>, <<U, U>>, <<U, U, U>>,
             <<A1(P("u8"))>>, <<U, A1(P("u8"))>>, <<A1(P("u8")), A1(P("u8"))>>,
             <<A1(P("u8")), A1(P("u16"))>>, <<A1(P("u32")), A3(P("u8"), P("u8"), P("u16"))>>,
             <<A2(P("u8"), P("u8")), A1(P("u16"))>>, <<U, A1(Str)>>, <<A1(P("u32")), U, A2(P("u16"), P("u16"))>>,
-            <<A1(P("bool")), A1(P("u8"))>> }
+            <<A1(P("bool")), A1(P("u8"))>>,
+            <<U, NVar(0, <<P("u8")>>)>>, <<NVar(0, <<P("u8"), P("u16")>>), NVar(0, <<P("u16"), P("u8")>>)>>,
+            <<NVar(0, <<P("u32")>>), A1(P("u32")), NVar(0, <<Str, P("u8")>>)>> }
 Enums ==
     {Enum(r, sh) : r \in EnumReprs, sh \in Shapes}
     \* explicit discriminants (unit-only, explicit repr): declared value differs from index
